@@ -59,6 +59,21 @@ def callFn : Nat → List Layer → Hook → List Layer → Res
 def invoke (fuel : Nat) (stack : List Layer) (h : Hook) : Res :=
   callFn fuel stack h stack
 
+/-- A call that the libraries themselves make through the top record of a context:
+`ctx->cb->h(ctx->cb, …)` in libaddrxlat (page fetch of the read cache, read
+capabilities, register / symbol / size / offset / number look-ups of the
+translation set-up) and `cb = addrxlat_ctx_get_cb(ctx->xlatctx); cb->sym_value(cb, …)`
+in libkdumpfile's `get_symbol_val` (UTS names, `_stext`).  The slot that is called
+is the top record's; which record is passed is *not* written here: it comes from
+`Kdf.Gen.topCallPasses`, regenerated from the C sources on every run.  `own` is
+the position (from the top) of the caller's own record — libkdumpfile's
+`ctx->xlatcb`, the bottom layer for libaddrxlat — which is what a site that does
+not pass the top record passes instead. -/
+def topCall (fuel : Nat) (stack : List Layer) (h : Hook) (own : Nat) : Res :=
+  match Kdf.Gen.topCallPasses h with
+  | .self => callFn fuel stack h stack
+  | _ => callFn fuel stack h (stack.drop own)
+
 /-- Specification: the first layer from the top that overrides `h` is called,
 with its own record; if none does, the built-in default is. -/
 def invokeSpec : List Layer → Hook → Res
